@@ -290,6 +290,11 @@ func (y *c03Sys) perturbations(leaf int) []c03Pert {
 	add("from", "other", true, func(c *c03Claim) { c.From = "l2attacker" })
 	add("from", "case", false, func(c *c03Claim) { c.From = strings.ToUpper(c.From) })
 	add("from", "to-value", false, func(c *c03Claim) { c.From = c.To })
+	add("from", "leading-space", false, func(c *c03Claim) { c.From = " " + c.From })
+	add("from", "trailing-newline", false, func(c *c03Claim) { c.From = c.From + "\n" })
+	add("from", "trailing-nul", false, func(c *c03Claim) { c.From = c.From + "\x00" })
+	add("to", "trailing-space", false, func(c *c03Claim) { c.To = c.To + " " })
+	add("to", "leading-tab", false, func(c *c03Claim) { c.To = "\t" + c.To })
 	add("to", "other-valid", true, func(c *c03Claim) { c.To = alice })
 	add("to", "uppercase-bech32", false, func(c *c03Claim) { c.To = strings.ToUpper(c.To) })
 	add("to", "sender", false, func(c *c03Claim) { c.To = c.Sender })
